@@ -116,7 +116,9 @@ class C04:
         self.rxs = Regexes(self.data)
         reach = self.eff.reachable(ENTRIES)
         dunders = [q for q in self.eff.funcs if q.split(".")[-1] in ("__hash__", "__eq__", "__post_init__", "__init__") and q.startswith(("models.", "annotate."))]
-        self.scope = sorted(set(reach) | set(self.eff.reachable(dunders)))
+        # the cleaning steps only run for markup_text / clean_steps, which is outside this property's quantifier (plain text); their
+        # robustness clauses belong to C20
+        self.scope = sorted(q for q in set(reach) | set(self.eff.reachable(dunders)) if not q.startswith("clean."))
         ctx.extra["functions_in_scope"] = len(self.scope)
         ctx.need(len(reach) >= 70, f"call graph from the three entry points is implausibly small ({len(reach)})")
 
@@ -551,7 +553,7 @@ class C04:
                     continue  # fixed-size tuple: index checked by the type checker
                 n += 1
                 bt = norm(base)
-                ok = guarded(fn, s, {bt}) or self._index_exception(q, fn, s, bt)
+                ok = guarded(fn, s, {bt}) or _established_nonempty(fn, s, bt) or self._index_exception(q, fn, s, bt)
                 ctx.ob("T6", f"{q}/{norm(s)[:40]}", ok,
                        f"constant index into `{bt[:40]}` (type {tb[:40]}): IndexError on an empty sequence unless a length / emptiness test dominates it",
                        node=s, mod=mod)
@@ -657,6 +659,9 @@ class C04:
                     check(f"{q}/groups[{key!r}]", n, mod, key, is_case, "case-reporter extractors")
                 elif q in ("models.ResourceCitation.corrected_reporter", "models.ResourceCitation.corrected_citation"):
                     check(f"{q}/groups[{key!r}]", n, mod, key, is_cit, "citation extractors")
+                elif cls is not None and self.repo.is_subclass(cls, "CaseCitation"):
+                    # the receiver's static class is a case citation: only extractors with a `reporters` edition construct it
+                    check(f"{q}/groups[{key!r}]", n, mod, key, is_case, "case-reporter extractors")
                 elif cls == "StopWordToken" or key == "stop_word":
                     check(f"{q}/groups[{key!r}]", n, mod, key, lambda e: e["ctor"].startswith("StopWordToken"), "stop-word extractor")
                 else:
@@ -672,6 +677,7 @@ class C04:
                 if f not in ("re.compile", "re.search", "re.match", "re.finditer", "re.sub", "re.fullmatch", "re.findall", "re.split") or not c.args:
                     continue
                 pat = c.args[0]
+                self._t8_mod = mod
                 dyn = self._dynamic_parts(fn, pat)
                 if isinstance(pat, ast.Attribute) and pat.attr == "regex":
                     continue  # the extractor's own complete pattern, not text interpolated into one
@@ -720,6 +726,20 @@ class C04:
             mod_const = self.rxs.consts.get(e.id)
             if mod_const is not None:
                 return []
+            # a module-level name of the function's own module (or imported from a sibling module) bound once to an expression
+            # without dynamic parts is a constant of the program
+            m_ = getattr(self, "_t8_mod", None)
+            if m_ is not None and e.id not in [a.arg for a in fn.args.args + fn.args.kwonlyargs]:
+                owner = m_
+                origin = m_.imports.get(e.id)
+                if origin and origin.startswith("eyecite.") and origin.split(".")[1] in self.ctx.repo.modules:
+                    owner = self.ctx.repo.modules[origin.split(".")[1]]
+                binds = [s for s in owner.tree.body if isinstance(s, (ast.Assign, ast.AnnAssign)) and s.value is not None and any(
+                    isinstance(t, ast.Name) and t.id == (origin.split(".")[-1] if owner is not m_ else e.id)
+                    for t in (s.targets if isinstance(s, ast.Assign) else [s.target]))]
+                if len(binds) == 1 and not any(isinstance(x, ast.Global) and e.id in x.names for x in ast.walk(owner.tree)):
+                    mfn = ast.parse("def _m(): pass").body[0]
+                    return [] if not self._dynamic_parts(mfn, binds[0].value, depth + 1) else [e]
             return [e]
         if isinstance(e, (ast.ListComp, ast.GeneratorExp)):
             return self._dynamic_parts(fn, e.elt, depth)
@@ -871,12 +891,65 @@ class C04:
                         keys = {x.value for x in k.value.keys}
                     elif isinstance(k.value, ast.Call) and isinstance(k.value.func, ast.Attribute) and k.value.func.attr == "groupdict":
                         keys = self._dynamic_group_names(fn)
+                    elif isinstance(k.value, ast.Name):
+                        keys = self._dict_local_keys(fn, k.value.id)
                     n += 1
                     ok = keys is not None and keys <= fields
                     ctx.ob("T9", f"{q}/{cls}(metadata=...)", ok,
                            f"metadata keys are splatted into {cls}.Metadata(**...): every key must be a declared field "
                            f"(keys {sorted(keys) if keys is not None else '?'}; unknown {sorted((keys or set()) - fields)})", node=k.value, mod=mod)
         ctx.extra["T9_metadata_dicts"] = n
+
+    def _dict_local_keys(self, fn, name: str) -> Optional[Set[str]]:
+        """key set of a local dict: bound once to `m.groupdict()` or a literal-key dict display, then only changed by item stores whose key is a
+        constant or ranges over a literal tuple / ReferenceCitation.name_fields, or by removals"""
+        binds = [s_ for s_ in walk_local(fn) if isinstance(s_, (ast.Assign, ast.AnnAssign)) and s_.value is not None and any(
+            isinstance(t, ast.Name) and t.id == name for t in (s_.targets if isinstance(s_, ast.Assign) else [s_.target]))]
+        if len(binds) != 1 or name in [a.arg for a in fn.args.args + fn.args.kwonlyargs]:
+            return None
+        v = binds[0].value
+        if isinstance(v, ast.Call) and isinstance(v.func, ast.Name) and v.func.id == "dict" and len(v.args) == 1 and not v.keywords:
+            v = v.args[0]
+        if isinstance(v, ast.Call) and isinstance(v.func, ast.Attribute) and v.func.attr == "groupdict":
+            keys = self._dynamic_group_names(fn)
+        elif isinstance(v, ast.Dict) and all(isinstance(x, ast.Constant) for x in v.keys):
+            keys = {x.value for x in v.keys}
+        else:
+            return None
+        if keys is None:
+            return None
+        keys = set(keys)
+        nf = self._name_fields()
+        for x in walk_local(fn):
+            if isinstance(x, ast.Subscript) and isinstance(x.value, ast.Name) and x.value.id == name and isinstance(x.ctx, ast.Store):
+                sl = x.slice
+                if isinstance(sl, ast.Constant) and isinstance(sl.value, str):
+                    keys.add(sl.value)
+                    continue
+                if isinstance(sl, ast.Name):
+                    dom = None
+                    for lp in walk_local(fn):
+                        if isinstance(lp, (ast.For, ast.comprehension)) and isinstance(lp.target, ast.Name) and lp.target.id == sl.id:
+                            it = lp.iter
+                            if isinstance(it, (ast.List, ast.Tuple)) and all(isinstance(e_, ast.Constant) for e_ in it.elts):
+                                dom = {e_.value for e_ in it.elts}
+                            elif norm(it).endswith(".name_fields") and nf is not None:
+                                dom = set(nf)
+                    if dom is not None:
+                        keys |= dom
+                        continue
+                return None
+            if isinstance(x, ast.Call) and isinstance(x.func, ast.Attribute) and isinstance(x.func.value, ast.Name) and x.func.value.id == name \
+                    and x.func.attr in ("update", "setdefault", "__setitem__"):
+                return None
+        return keys
+
+    def _name_fields(self) -> Optional[Set[str]]:
+        ci = self.repo.classes.get("ReferenceCitation")
+        for s_ in ci.node.body if ci else []:
+            if isinstance(s_, ast.Assign) and norm(s_.targets[0]) == "name_fields" and isinstance(s_.value, (ast.List, ast.Tuple)):
+                return {x.value for x in s_.value.elts if isinstance(x, ast.Constant)}
+        return None
 
     def _dynamic_group_names(self, fn) -> Optional[Set[str]]:
         """named groups of the dynamically built reference patterns: (?P<{key}>..) with key from name_fields, plus literal (?P<name>"""
@@ -893,6 +966,58 @@ class C04:
                 return None
             names |= nf
         return names
+
+
+def _established_nonempty(fn, s: ast.AST, bt: str) -> bool:
+    """`bt` is made non-empty by a statement that precedes the use on every path: `if not X: X.append(e)`, an unconditional `X.append(e)`,
+    or `X = [e, ...]`, with no shrinking operation in between (looked for in the enclosing blocks, innermost first)"""
+    GROW = ("append", "insert", "add")
+    SHRINK = ("pop", "remove", "clear", "discard", "popitem")
+
+    def grows(st) -> bool:
+        if isinstance(st, ast.Expr) and isinstance(st.value, ast.Call) and isinstance(st.value.func, ast.Attribute) and norm(st.value.func.value) == bt:
+            if st.value.func.attr in GROW and st.value.args:
+                return True
+            if st.value.func.attr == "extend" and st.value.args and isinstance(st.value.args[0], (ast.List, ast.Tuple)) and st.value.args[0].elts:
+                return True
+        if isinstance(st, ast.Assign) and len(st.targets) == 1 and norm(st.targets[0]) == bt and isinstance(st.value, (ast.List, ast.Tuple)) and st.value.elts \
+                and not any(isinstance(e, ast.Starred) for e in st.value.elts):
+            return True
+        if isinstance(st, ast.If) and not st.orelse and norm(st.test) in (f"not {bt}", f"len({bt}) == 0", f"{bt} == []", f"0 == len({bt})"):
+            body = effective_body(st) if hasattr(st, "body") else st.body
+            return bool(body) and grows(body[-1])
+        return False
+
+    def shrinks(st) -> bool:
+        for x in ast.walk(st):
+            if isinstance(x, ast.Call) and isinstance(x.func, ast.Attribute) and norm(x.func.value) == bt and x.func.attr in SHRINK:
+                return True
+            if isinstance(x, ast.Delete) and any(bt in norm(t) for t in x.targets):
+                return True
+            if isinstance(x, (ast.Assign, ast.AugAssign, ast.AnnAssign)):
+                tg = x.targets if isinstance(x, ast.Assign) else [x.target]
+                if any(norm(t) == bt or norm(t).startswith(bt + "[") for t in tg) and not grows(x):
+                    return True
+        return False
+
+    cur = s
+    while cur is not fn and cur is not None:
+        par = getattr(cur, "parent", None)
+        if par is None:
+            return False
+        for fld in ("body", "orelse", "finalbody"):
+            block = getattr(par, fld, None)
+            if isinstance(block, list) and cur in block:
+                i = block.index(cur)
+                for j in range(i - 1, -1, -1):
+                    if grows(block[j]):
+                        return True
+                    if shrinks(block[j]):
+                        return False
+        if isinstance(par, (ast.For, ast.While, ast.AsyncFor)) and any(shrinks(x) for x in par.body):
+            return False  # a later iteration may have shrunk it
+        cur = par
+    return False
 
 
 def _comp_bound(node: ast.AST, name: str) -> bool:
